@@ -183,6 +183,13 @@ def do_op(op, states, workdir):
             st = ComplexWaveFunction(op["n"], num_hidden=op["h"], gpu=False)
         else:
             st = DensityMatrix(op["n"], num_hidden=op["h"], num_aux=op["a"], gpu=False)
+        # deterministic (RNG-free) non-zero biases on every network, incl. the phase network's auxiliary bias, so that
+        # "evaluation never changes a parameter" is examined away from the all-zero initialisation
+        if op.get("fill", True):
+            for net in st.networks:
+                for name, p_ in getattr(st, net).named_parameters():
+                    if "bias" in name:
+                        p_.data.add_(0.05 * (1.0 + torch.arange(p_.numel(), dtype=torch.double)) * (-1.0 if "hidden" in name else 1.0))
         states.append(st)
         return None
     st = states[op["slot"]]  # IndexError for a missing slot
